@@ -186,7 +186,7 @@ func runCheck(repo, out, prop, tier string, timeout, seed int, verbose, keep boo
 	// a few at a time, three times the budget. Definite answers (unsat / sat) are final.
 	var again []*Obligation
 	for _, o := range obls {
-		if !o.Cover && !o.ShortTimeout && o.Status != "unsat" && o.Status != "sat" && o.TimeMS >= int64(timeout)*900 {
+		if !o.Cover && !o.ShortTimeout && o.Status != "unsat" && o.Status != "sat" && (o.TimeMS >= int64(timeout)*900 || o.QFTimedOut) {
 			o.FirstStatus = o.Status
 			o.Status = ""
 			again = append(again, o)
